@@ -111,6 +111,7 @@ type runState struct {
 	viols    []*violationT
 	casualties map[string]int // compile/build failures attributed elsewhere, by signature
 	dropped  int
+	casualtyReplays []string
 	programs int
 	infra    []string
 	known    []string
@@ -179,6 +180,7 @@ func (rs *runState) writePart() {
 	rs.extra["programs_dropped_compile_or_build_casualties"] = rs.dropped
 	if len(rs.casualties) > 0 {
 		rs.extra["casualties_by_signature"] = rs.casualties
+		rs.extra["casualty_replays"] = rs.casualtyReplays
 	}
 	dir := filepath.Join(os.Getenv("VERIF_EVIDENCE_DIR"), "parts")
 	if os.Getenv("VERIF_EVIDENCE_DIR") == "" {
@@ -197,11 +199,15 @@ func replayDirT(verif string) string {
 }
 
 func (rs *runState) writeReplay(v *violationT) string {
+	return rs.writeReplayAs(v, rs.pid, "T")
+}
+
+func (rs *runState) writeReplayAs(v *violationT, pid, prefix string) string {
 	b, _ := json.MarshalIndent(v, "", " ")
 	h := sha1.Sum(b)
-	dir := filepath.Join(replayDirT(rs.tools.verif), rs.pid)
+	dir := filepath.Join(replayDirT(rs.tools.verif), pid)
 	_ = os.MkdirAll(dir, 0o755)
-	path := filepath.Join(dir, "T-"+v.Kind+"-"+hex.EncodeToString(h[:5])+".json")
+	path := filepath.Join(dir, prefix+"-"+v.Kind+"-"+hex.EncodeToString(h[:5])+".json")
 	_ = os.WriteFile(path, b, 0o644)
 	return path
 }
@@ -220,6 +226,11 @@ type diffSpec struct {
 	// ownsCompile: compile/build failures are violations of this property (C11); otherwise casualties
 	ownsCompileFor func(p *Program) bool // compile/build failures of these programs are violations of this property
 	ownsCompile bool
+	// casualtiesOK: a compile/build failure that onCompileFail does not handle is only counted (and its program kept as
+	// a C11 replay), not reported. Default (false): it is a violation of the running property as well - every
+	// property of engine T quantifies over all programs of the supported subset, and a program without a buildable
+	// compiled form cannot satisfy it.
+	casualtiesOK bool
 	// extra per-batch check (e.g. text comparisons); may add violations
 	perBatch func(rs *runState, b *batch, res *batchResult)
 	perRecord func(rs *runState, p *Program, r *Record) *violationT
@@ -536,15 +547,30 @@ func (rs *runState) runDiff(spec *diffSpec) {
 						if spec.onCompileFail != nil && spec.onCompileFail(rs, p, res.fail, b) {
 							return
 						}
-						if spec.ownsCompile || (spec.ownsCompileFor != nil && spec.ownsCompileFor(p)) {
+						if spec.ownsCompile || !spec.casualtiesOK || (spec.ownsCompileFor != nil && spec.ownsCompileFor(p)) {
 							rs.eval(progHash(p)+"compile", true, p.Tags...)
-							rs.addViolation(&violationT{Kind: strings.SplitN(res.fail.Stage, "-", 2)[0], Signature: sig, What: fmt.Sprintf("%s: %s failed: %s", p.Name, res.fail.Stage, normDiag(res.fail.Diag)),
+							what := fmt.Sprintf("%s: %s failed: %s", p.Name, res.fail.Stage, normDiag(res.fail.Diag))
+							if !spec.ownsCompile {
+								what += " (a program of the supported subset for which the compiler produces no buildable output has no compiled form that could satisfy " + rs.pid + "; the same event violates C11)"
+							}
+							rs.addViolation(&violationT{Kind: strings.SplitN(res.fail.Stage, "-", 2)[0], Signature: sig, What: what,
 								Program: p, Stage: res.fail, SourceS: b.srcS, Output: res.outO, Style: j.db.style, NeedU: opts.needU})
 						} else {
 							rs.mu.Lock()
 							rs.dropped++
 							rs.casualties[sig]++
+							first := rs.casualties[sig] == 1
 							rs.mu.Unlock()
+							if first {
+								// keep the (unshrunk) program: `./check C11 --replay <file>` re-runs it
+								cv := &violationT{Property: "C11", Engine: "T", Kind: strings.SplitN(res.fail.Stage, "-", 2)[0], Signature: sig,
+									What:    fmt.Sprintf("casualty seen by the %s run: %s: %s failed: %s", rs.pid, p.Name, res.fail.Stage, normDiag(res.fail.Diag)),
+									Program: p, Stage: res.fail, SourceS: b.srcS, Output: res.outO, Style: j.db.style, NeedU: opts.needU}
+								path := rs.writeReplayAs(cv, "C11", "casualty-"+rs.pid)
+								rs.mu.Lock()
+								rs.casualtyReplays = append(rs.casualtyReplays, path)
+								rs.mu.Unlock()
+							}
 						}
 						return
 					}
